@@ -30,16 +30,22 @@ MATH = 'xmlns="http://www.w3.org/1998/Math/MathML"'
 # ---------------------------------------------------------------------------------------
 # strategy
 # ---------------------------------------------------------------------------------------
-def draw_model(draw, max_states=5):
+EXTRA_POOL = ['nu', 'K2', 'rho_', 'w9', 'Psi', 'h', 'j_1', 'Omega', 'e5', 'Lm', 'q', 'Tz', 'u_u', 'G7']
+
+
+def draw_model(draw, max_states=5, big=False):
+    """big: a model with 8-9 states and 6-8 constants (more than 16 published parameters)."""
     names = list(draw(st.permutations(NAME_POOL)))
+    if big:
+        names = list(draw(st.permutations(EXTRA_POOL))) + names
     n_comp = draw(st.integers(1, 3))
-    n_g = draw(st.integers(0, max(0, max_states - n_comp)))
+    n_g = draw(st.integers(8 - n_comp, 9 - n_comp)) if big else draw(st.integers(0, max(0, max_states - n_comp)))
     n_states = n_comp + n_g
     comps = [dict(id=names.pop(), size=draw(gen.logu(0.3, 5.0)), sid=None) for _ in range(n_comp)]
     for c in comps:
         c['sid'] = 'drug' if (c is comps[0] and draw(st.booleans())) else names.pop()
     gstates = [dict(id=names.pop(), init=draw(gen.logu(0.2, 5.0))) for _ in range(n_g)]
-    n_const = draw(st.integers(1, 4))
+    n_const = draw(st.integers(6, 8)) if big else draw(st.integers(1, 4))
     consts = [dict(id=names.pop(), value=draw(gen.logu(0.05, 2.0))) for _ in range(n_const)]
     derived = []
     if n_const >= 2 and gen.chance(draw, 0.4):
